@@ -201,7 +201,7 @@ pub fn run(ctx: &mut Ctx) {
             Err(m) => Err(Fail::new(m, "osu", text.as_bytes().to_vec())),
         }
     });
-    let cases = ctx.tier.pick(60_000u64, 1_000_000u64);
+    let cases = ctx.tier.pick(500_000u64, 4_000_000u64);
     ctx.pbt("c06-random", cases, 2600, |t, st| {
         let (text, family) = gen_case(t);
         st.eval();
